@@ -250,6 +250,7 @@ def main():
     violations, known_hits = [], []
     seen_known = set()
     replayed = {}
+    standin_tried = {}
     for i, rec in enumerate(refuted):
         k = match_known(known, prop, rec)
         if k is not None:
@@ -260,6 +261,28 @@ def main():
         if len(replayed) >= int(os.environ.get("PYVC_MAX_REPLAYS", "8")):
             rec = dict(rec, scenario=None)    # still reported, replay file carries the solver output
         path, outcome = replay(prop, rec, i)
+        if outcome.get("status") != "violated" and not standin_tried.get(rec.get("unit")):
+            # the solver's counterexample does not fail natively (or none was given): the unit's BOUNDED native scenarios (module STANDIN
+            # table) are tried once per unit; one that fails on the tree under test is a failing input for the report
+            standin_tried[rec.get("unit")] = True
+            for pat, fn in getattr(mod, "STANDIN", {}).items():
+                if not re.search(pat, f"{rec.get('unit')} {rec['name']}"):
+                    continue
+                try:
+                    sc = fn({})
+                except Exception:
+                    continue
+                if not isinstance(sc, dict) or not sc.get("code"):
+                    continue
+                srec = dict(rec, scenario=sc, detail=f"obligation {rec['name']} refuted; the solver's witness did not fail natively, bounded native scenario of the unit attached")
+                p2, o2 = replay(prop, srec, 900 + i)
+                if o2.get("status") == "violated":
+                    path, outcome = p2, o2
+                    break
+                try:
+                    os.unlink(p2)
+                except OSError:
+                    pass
         replayed[rec["name"]] = path
         rec["replay_file"] = str(path)
         rec["replay_outcome"] = outcome
